@@ -567,12 +567,7 @@ Proof.
       destruct (start_R n t Hb) as [R0 [S0 [_ [_ Hnil]]]]. destruct (blockK' n Hb) as [_ KE].
       destruct (block_ext n Hb) as [_ [Iup _]]. rewrite Iup in Hu.
       pose proof (run_events_pul x (evs n) t _ _ _ t' (block_run c ss0 H1 n Hb) KE R0 S0 Hs Kx Tx Hu) as Hin.
-      destruct (Nat.eqb n (c_entry c)) eqn:Ee.
-      * apply Nat.eqb_eq in Ee. rewrite (reachc_entry_empty n t Hr Ee) in *.
-        destruct (start_R n empty_tokens Hb) as [_ [_ [[_ I2] _]]].
-        rewrite Ee in I2 at 1. rewrite Nat.eqb_refl in I2.
-        unfold init_scope in Hin. rewrite Ee, Nat.eqb_refl in Hin. simpl in Hin. exact Hin.
-      * destruct (Hnil eq_refl) as [_ P]. unfold init_scope in P, Hin. rewrite Ee in Hin. simpl in Hin. exact Hin.
+      unfold init_scope in Hin. destruct (Nat.eqb n (c_entry c)); simpl in Hin; exact Hin.
   - rewrite (stats_blk c ss n Hlen Hb) in Hd, Hm. simpl in Hd, Hm. unfold flow_succ in Hm.
     rewrite (stats_blk c ss n Hlen Hb) in Hm. simpl in Hm. rewrite app_nil_r in Hm.
     assert (Hex : n <> c_exit c).
